@@ -453,3 +453,249 @@ func TestVerifC12LeveledUpdate(t *testing.T) {
 }
 
 var _ = sort.Ints
+
+// ---------------------------------------------------------------- successive batches on one executor (reconcile rounds)
+
+type c12Assign struct {
+	Sets [][]int
+	Nums []int64
+}
+
+func c12GenAssign(t *rapid.T, kind c12Kind, nodes []c12Node, label string) c12Assign {
+	a := c12Assign{Sets: make([][]int, len(nodes)), Nums: make([]int64, len(nodes))}
+	universe := []int{0, 1, 2, 3, 4, 5, 6, 7}
+	for i := range nodes {
+		if kind.IsCPUSet {
+			p := universe
+			if nodes[i].Parent >= 0 {
+				p = a.Sets[nodes[i].Parent]
+			}
+			a.Sets[i] = c12GenSubset(t, p, label+"Set")
+		} else if nodes[i].Parent < 0 {
+			a.Nums[i] = c12GenNumTop(t, label+"Top")
+		} else {
+			a.Nums[i] = c12GenNumChild(t, a.Nums[nodes[i].Parent], label+"Num")
+		}
+	}
+	return a
+}
+
+func (a c12Assign) text(kind c12Kind, v2 bool, i int, asOldFile bool) string {
+	if kind.IsCPUSet {
+		return cpuset.NewCPUSet(a.Sets[i]...).String()
+	}
+	return c12Render(kind, v2, a.Nums[i], asOldFile)
+}
+
+func (a c12Assign) same(kind c12Kind, b c12Assign, i int) bool {
+	if kind.IsCPUSet {
+		return cpuset.NewCPUSet(a.Sets[i]...).Equals(cpuset.NewCPUSet(b.Sets[i]...))
+	}
+	return a.Nums[i] == b.Nums[i]
+}
+
+// TestVerifC12LeveledRounds runs 2-4 successive LeveledUpdateBatch calls on ONE executor (as successive reconcile rounds do,
+// all inside the force-update window, so the ResourceCache decides what is skipped), including rounds that return to an
+// earlier assignment; every write of every round is a crash point, and after each round every file holds that round's target.
+func TestVerifC12LeveledRounds(t *testing.T) {
+	rec := vk.New(t, "C12", "leveledRounds")
+	helper := sysutil.NewFileTestUtil(t)
+	defer helper.Cleanup()
+	helper.SetResourcesSupported(true, sysutil.MemoryMin, sysutil.MemoryLow, sysutil.MemoryHigh)
+	sentinel := time.Date(2001, 1, 1, 0, 0, 0, 0, time.UTC)
+
+	rapid.Check(t, func(t *rapid.T) {
+		c := rec.Begin()
+		defer c.End()
+		c12CaseSeq++
+		root := fmt.Sprintf("c12rounds%d", c12CaseSeq)
+		kind := rapid.SampledFrom(c12Kinds).Draw(t, "kind")
+		v2 := rapid.Bool().Draw(t, "cgroupV2")
+		helper.SetCgroupsV2(v2)
+		defer helper.SetCgroupsV2(false)
+		res, err := sysutil.GetCgroupResource(kind.Name)
+		if err != nil {
+			t.Fatalf("harness: %v", err)
+		}
+		depth := rapid.IntRange(2, 3).Draw(t, "depth")
+		nodes := []c12Node{{Dir: root + "/kubepods", Level: 0, Parent: -1}}
+		frontier := []int{0}
+		for lvl := 1; lvl < depth; lvl++ {
+			var next []int
+			for _, p := range frontier {
+				fan := rapid.IntRange(1, 2).Draw(t, "fanout")
+				for k := 0; k < fan; k++ {
+					nodes = append(nodes, c12Node{Dir: fmt.Sprintf("%s/n%d", nodes[p].Dir, k), Level: lvl, Parent: p})
+					next = append(next, len(nodes)-1)
+				}
+			}
+			frontier = next
+		}
+		assigns := []c12Assign{c12GenAssign(t, kind, nodes, "a0")}
+		paths := make([]string, len(nodes))
+		for i, n := range nodes {
+			paths[i] = res.Path(n.Dir)
+			if err := os.MkdirAll(filepath.Dir(paths[i]), 0o777); err != nil {
+				t.Fatalf("harness: %v", err)
+			}
+			if err := os.WriteFile(paths[i], []byte(assigns[0].text(kind, v2, i, true)), 0o644); err != nil {
+				t.Fatalf("harness: %v", err)
+			}
+		}
+		caseRoots, _ := filepath.Glob(filepath.Join(helper.TempDir, "*", root))
+		defer func() {
+			os.RemoveAll(filepath.Join(helper.TempDir, root))
+			for _, d := range caseRoots {
+				os.RemoveAll(d)
+			}
+		}()
+
+		e := &ResourceUpdateExecutorImpl{ResourceCache: cache.NewCacheDefault(), Config: NewDefaultConfig()}
+		e.Config.ResourceForceUpdateSeconds = 24 * 3600
+		stop := make(chan struct{})
+		defer close(stop)
+		e.Run(stop)
+
+		var trace []string
+		failed := false
+		snapshot := func(step string) {
+			if failed {
+				return
+			}
+			cur := make([]string, len(nodes))
+			for i := range nodes {
+				b, _ := os.ReadFile(paths[i])
+				cur[i] = strings.Trim(string(b), "\n")
+				// the kernel keeps the period of cgroup-v2 cpu.max when only the quota is written; a plain file does not
+				if kind.Name == sysutil.CPUCFSQuotaName && v2 && len(strings.Fields(cur[i])) == 1 {
+					if cur[i] == "-1" {
+						cur[i] = "max"
+					}
+					cur[i] += " 100000"
+					_ = os.WriteFile(paths[i], []byte(cur[i]), 0o644)
+				}
+			}
+			trace = append(trace, fmt.Sprintf("%s => %v", step, cur))
+			for i, n := range nodes {
+				if n.Parent < 0 {
+					continue
+				}
+				if kind.IsCPUSet {
+					ch, e1 := cpuset.Parse(cur[i])
+					pa, e2 := cpuset.Parse(cur[n.Parent])
+					if e1 != nil || e2 != nil || !ch.IsSubsetOf(pa) {
+						failed = true
+						c.Violation(t, "rounds:child-cpuset-outside-parent", "after %s: %s=%q not within parent %s=%q; trace=%v", step, n.Dir, cur[i], nodes[n.Parent].Dir, cur[n.Parent], trace)
+						return
+					}
+				} else {
+					ch, e1 := c12ParseNum(kind, v2, cur[i])
+					pa, e2 := c12ParseNum(kind, v2, cur[n.Parent])
+					if e1 != nil || e2 != nil || ch > pa {
+						failed = true
+						c.Violation(t, "rounds:child-above-parent", "after %s: %s %s=%q larger than parent %s=%q; trace=%v", step, kind.Name, n.Dir, cur[i], nodes[n.Parent].Dir, cur[n.Parent], trace)
+						return
+					}
+				}
+			}
+		}
+
+		rounds := rapid.IntRange(2, 4).Draw(t, "rounds")
+		sawRevert, sawShrinkThenGrow := false, false
+		everShrunk := make([]bool, len(nodes))
+		for r := 1; r <= rounds && !failed; r++ {
+			prev := assigns[r-1]
+			var next c12Assign
+			switch mode := rapid.SampledFrom([]string{"free", "revert", "revert", "same"}).Draw(t, "mode"); {
+			case mode == "revert" && r >= 2:
+				next = assigns[r-2]
+				sawRevert = true
+			case mode == "same":
+				next = prev
+			default:
+				next = c12GenAssign(t, kind, nodes, fmt.Sprintf("a%d", r))
+			}
+			assigns = append(assigns, next)
+			for i := range nodes {
+				if !kind.IsCPUSet {
+					if next.Nums[i] < prev.Nums[i] {
+						everShrunk[i] = true
+					} else if next.Nums[i] > prev.Nums[i] && everShrunk[i] {
+						sawShrinkThenGrow = true
+					}
+				} else {
+					o, n := cpuset.NewCPUSet(prev.Sets[i]...), cpuset.NewCPUSet(next.Sets[i]...)
+					if n.IsSubsetOf(o) && !n.Equals(o) {
+						everShrunk[i] = true
+					} else if !n.IsSubsetOf(o) && everShrunk[i] {
+						sawShrinkThenGrow = true
+					}
+				}
+			}
+			for _, p := range paths {
+				_ = os.Chtimes(p, sentinel, sentinel)
+			}
+			trace = append(trace, fmt.Sprintf("-- round %d", r))
+			lv := make([][]ResourceUpdater, depth)
+			for i, n := range nodes {
+				u, err := DefaultCgroupUpdaterFactory.New(kind.Name, n.Dir, next.text(kind, v2, i, false), nil)
+				if err != nil {
+					t.Fatalf("harness: %v", err)
+				}
+				cu := u.(*CgroupResourceUpdater)
+				origUpdate, origMerge := cu.updateFunc, cu.mergeUpdateFunc
+				dir, round := n.Dir, r
+				cu.updateFunc = func(x ResourceUpdater) error {
+					err := origUpdate(x)
+					snapshot(fmt.Sprintf("r%d update(%s,%s)", round, dir, x.Value()))
+					return err
+				}
+				if origMerge != nil {
+					cu.mergeUpdateFunc = func(x ResourceUpdater) (ResourceUpdater, error) {
+						m, err := origMerge(x)
+						snapshot(fmt.Sprintf("r%d merge(%s,%s)", round, dir, x.Value()))
+						return m, err
+					}
+				}
+				lv[n.Level] = append(lv[n.Level], cu)
+			}
+			e.LeveledUpdateBatch(lv)
+			if failed {
+				break
+			}
+			for i, n := range nodes {
+				b, _ := os.ReadFile(paths[i])
+				cur := strings.Trim(string(b), "\n")
+				ok := false
+				if kind.IsCPUSet {
+					got, err := cpuset.Parse(cur)
+					ok = err == nil && got.Equals(cpuset.NewCPUSet(next.Sets[i]...))
+				} else {
+					got, err := c12ParseNum(kind, v2, cur)
+					ok = err == nil && got == next.Nums[i]
+				}
+				if !ok {
+					failed = true
+					c.Violation(t, "rounds:final-not-target", "round %d: %s %s holds %q, target %q; trace=%v", r, kind.Name, n.Dir, cur, next.text(kind, v2, i, false), trace)
+					break
+				}
+				if next.same(kind, prev, i) {
+					if st, err := os.Stat(paths[i]); err == nil && !st.ModTime().Equal(sentinel) {
+						failed = true
+						c.Violation(t, "rounds:unchanged-file-rewritten", "round %d: %s %s unchanged (%q) but rewritten; trace=%v", r, kind.Name, n.Dir, cur, trace)
+						break
+					}
+				}
+			}
+		}
+		c.Class("kind:" + string(kind.Name))
+		c.ClassIf(v2, "cgroup-v2")
+		c.ClassIf(sawRevert, "round-returns-to-earlier-assignment")
+		c.ClassIf(sawShrinkThenGrow, "node-shrinks-then-grows")
+		c.Class(fmt.Sprintf("rounds:%d", rounds))
+		if sawShrinkThenGrow || sawRevert {
+			c.NonTrivial(kind.Name, v2, fmt.Sprint(nodes), fmt.Sprint(assigns))
+		}
+		c.Sample(map[string]any{"kind": kind.Name, "v2": v2, "nodes": nodes, "trace": trace})
+	})
+}
